@@ -739,4 +739,4 @@ if __name__ == '__main__':
     a = ap.parse_args()
     if getattr(a, 'only', None) or getattr(a, 'caps', None):
         os.environ['VERIF_PARTIAL'] = '1'
-    sys.exit(main(a.prop, a.tier, a.only))
+    sys.exit(guarded_main(lambda: main(a.prop, a.tier, a.only)))
